@@ -106,101 +106,115 @@ impl Iterator for FlopExhaustiveEvaluatorIterator {
     type Item = Showdown;
 
     fn next(&mut self) -> Option<Showdown> {
-        if self.current_turn_index >= self.turn_to && self.current_river_index >= self.river_to {
-            return None;
-        }
-
-        // a player without any combo makes the whole enumeration empty
-        if self.player_entries.iter().any(|entries| entries.is_empty()) {
-            return None;
-        }
-
-        let turn = self.current_deck[self.current_turn_index as usize];
-        let river = self.current_deck[self.current_river_index as usize];
-
-        self.current_board[3] = Some(turn);
-        self.current_board[4] = Some(river);
-
-        self.current_used_cards.insert(turn);
-        self.current_used_cards.insert(river);
-
-        let mut player_card_pairs = vec![];
-        let mut probability: f32 = 1.0;
-
-        let mut is_materialized = true;
-
-        for (player_index, player_entry) in self.player_entries.iter().enumerate() {
-            let entry = player_entry[self.current_player_indexes[player_index]];
-
-            if self.current_used_cards.contains(&entry.0[0])
-                || self.current_used_cards.contains(&entry.0[1])
+        // blocked deals are skipped by looping, not by calling next() again: the stack stays flat
+        loop {
+            if self.current_turn_index >= self.turn_to && self.current_river_index >= self.river_to
             {
-                is_materialized = false;
+                return None;
             }
 
-            // the cards of this combo are now taken: later players cannot hold them
-            self.current_used_cards.insert(entry.0[0]);
-            self.current_used_cards.insert(entry.0[1]);
-
-            player_card_pairs.push(entry.0);
-            probability *= entry.1;
-        }
-
-        let mut showdown = None;
-
-        if is_materialized {
-            showdown = Showdown::new(
-                player_card_pairs,
-                [
-                    self.current_board[0].unwrap(),
-                    self.current_board[1].unwrap(),
-                    self.current_board[2].unwrap(),
-                    self.current_board[3].unwrap(),
-                    self.current_board[4].unwrap(),
-                ],
-                probability,
-            );
-        }
-
-        let mut player_index_to_increment = None;
-
-        for i in 0..self.current_player_indexes.len() {
-            let ri = self.current_player_indexes.len() - i - 1;
-
-            if self.current_player_indexes[ri] < self.player_entries[ri].len() - 1 {
-                player_index_to_increment = Some(ri);
-
-                break;
-            }
-        }
-
-        self.current_board[3] = None;
-        self.current_board[4] = None;
-
-        self.current_used_cards.clear();
-
-        if let Some(player_index_to_increment) = player_index_to_increment {
-            self.current_player_indexes[player_index_to_increment] += 1;
-
-            for i in (player_index_to_increment + 1)..self.current_player_indexes.len() {
-                self.current_player_indexes[i] = 0;
+            // a player without any combo makes the whole enumeration empty
+            if self.player_entries.iter().any(|entries| entries.is_empty()) {
+                return None;
             }
 
-            return showdown.or_else(|| self.next());
-        }
+            let turn = self.current_deck[self.current_turn_index as usize];
+            let river = self.current_deck[self.current_river_index as usize];
 
-        if self.current_river_index < 48 {
-            self.current_river_index += 1;
+            self.current_board[3] = Some(turn);
+            self.current_board[4] = Some(river);
+
+            self.current_used_cards.insert(turn);
+            self.current_used_cards.insert(river);
+
+            let mut player_card_pairs = vec![];
+            let mut probability: f32 = 1.0;
+
+            let mut is_materialized = true;
+
+            for (player_index, player_entry) in self.player_entries.iter().enumerate() {
+                let entry = player_entry[self.current_player_indexes[player_index]];
+
+                if self.current_used_cards.contains(&entry.0[0])
+                    || self.current_used_cards.contains(&entry.0[1])
+                {
+                    is_materialized = false;
+                }
+
+                // the cards of this combo are now taken: later players cannot hold them
+                self.current_used_cards.insert(entry.0[0]);
+                self.current_used_cards.insert(entry.0[1]);
+
+                player_card_pairs.push(entry.0);
+                probability *= entry.1;
+            }
+
+            let mut showdown = None;
+
+            if is_materialized {
+                showdown = Showdown::new(
+                    player_card_pairs,
+                    [
+                        self.current_board[0].unwrap(),
+                        self.current_board[1].unwrap(),
+                        self.current_board[2].unwrap(),
+                        self.current_board[3].unwrap(),
+                        self.current_board[4].unwrap(),
+                    ],
+                    probability,
+                );
+            }
+
+            let mut player_index_to_increment = None;
+
+            for i in 0..self.current_player_indexes.len() {
+                let ri = self.current_player_indexes.len() - i - 1;
+
+                if self.current_player_indexes[ri] < self.player_entries[ri].len() - 1 {
+                    player_index_to_increment = Some(ri);
+
+                    break;
+                }
+            }
+
+            self.current_board[3] = None;
+            self.current_board[4] = None;
+
+            self.current_used_cards.clear();
+
+            if let Some(player_index_to_increment) = player_index_to_increment {
+                self.current_player_indexes[player_index_to_increment] += 1;
+
+                for i in (player_index_to_increment + 1)..self.current_player_indexes.len() {
+                    self.current_player_indexes[i] = 0;
+                }
+
+                if showdown.is_some() {
+                    return showdown;
+                }
+
+                continue;
+            }
+
+            if self.current_river_index < 48 {
+                self.current_river_index += 1;
+                self.current_player_indexes.fill(0);
+
+                if showdown.is_some() {
+                    return showdown;
+                }
+
+                continue;
+            }
+
+            self.current_turn_index += 1;
+            self.current_river_index = self.current_turn_index + 1;
             self.current_player_indexes.fill(0);
 
-            return showdown.or_else(|| self.next());
+            if showdown.is_some() {
+                return showdown;
+            }
         }
-
-        self.current_turn_index += 1;
-        self.current_river_index = self.current_turn_index + 1;
-        self.current_player_indexes.fill(0);
-
-        showdown.or_else(|| self.next())
     }
 }
 
